@@ -346,6 +346,54 @@ def syntactic_obs(zi, n, layers):
     return [0, [n, zi.zx_width_after(n, layers), [(off, zi.model_zbox(z)) for off, z in layers]]]
 
 
+def float_phase_stream(rep, ver, zi, gi, rng, count):
+    """Oracle-only stream on the real objects: circuits of rotations whose float phases are
+    arbitrary (off the k/16 grid) and pairwise close (agree to several significant digits), so
+    that any identification of distinct gates by a printed or rounded form shows.  No model is
+    involved: the standard interpretation of circuit2zx(c) must be proportional to c.eval()."""
+    from discopy.quantum import gates as G, circuit as C, zx as ZXM
+    from discopy.quantum.circuit import Id
+    bad = 0
+    for i in range(count):
+        n = rng.choice([1, 1, 2, 2, 3])
+        base = rng.choice([rng.uniform(0, 1), rng.uniform(0, 1000), rng.uniform(-5, 5),
+                           rng.randint(1, 400) + 0.25])
+        eps = rng.choice([1e-3, 1e-4, 1e-6, 0.15, 1e-9])
+        circ_, desc = Id(n), []
+        for j in range(rng.randint(2, 5)):
+            ph = base + rng.choice([0, 1, 2, 3, -1]) * eps
+            kind = rng.choice(["Rz", "Rx"] + (["CRz", "CRx", "CU1"] if n >= 2 else []))
+            g = getattr(G, kind)(ph)
+            off = rng.randint(0, n - len(g.dom))
+            circ_ = circ_ >> Id(off) @ g @ Id(n - off - len(g.dom))
+            desc.append("%s(%r)@%d" % (kind, ph, off))
+            if rng.random() < 0.3:
+                off = rng.randint(0, n - 1)
+                circ_ = circ_ >> Id(off) @ G.H @ Id(n - off - 1)
+                desc.append("H@%d" % off)
+        rep.count("stream:float-phases")
+        try:
+            d = common.with_timeout(20.0, ZXM.circuit2zx, circ_)
+            m_zx = zi.interpret([0, zi.canon_zx(d)])
+            arr = circ_.eval().array
+            m_ev = numpy.asarray(arr, dtype=complex).reshape(2 ** n, 2 ** n).T
+            ok, _ = zi.proportional(m_zx, m_ev, 1e-7)
+            why = "the standard interpretation of circuit2zx(c) is not c.eval() up to a scalar"
+        except Exception as exc:   # noqa: any refusal of a supported pure circuit is a failure
+            ok, why = False, "circuit2zx / eval raised %s: %s" % (type(exc).__name__, exc)
+        if ok:
+            ver.ok("O_sem_float")
+        else:
+            bad += 1
+            rep.count("oracle:O_sem_float:FAIL")
+            if bad <= 3:
+                rep.violation("float-phase circuit %s on %d qubits: %s" % (" >> ".join(desc), n, why),
+                              {"oracle": "O_sem_float", "circuit": desc, "qubits": n,
+                               "replay": "build the circuit with discopy.quantum.gates, compare "
+                                         "circuit2zx(c) (standard interpretation) with c.eval()"})
+    rep.count("float-phase-circuits", count)
+
+
 def run(tier, seed):
     import zx_impl as zi
     import gates_impl as gi
@@ -533,6 +581,7 @@ def run(tier, seed):
                 ver.fail("O_dagger", "the interpretation of circuit2zx(c).dagger() is not the "
                          "conjugate transpose of that of circuit2zx(c)", c, impl, model,
                          impl_dagger=zi.jsonable(dag))
+    float_phase_stream(rep, ver, zi, gi, rng, 150 if tier == "quick" else 1500)
     if tier == "thorough":
         # the same programs through vm_compute inside coqc and through the extracted runner
         common.cross_check_extraction(rep, "zx", ["DV.Common.Base", "DV.ZX.ZXProg"], "run_sexp",
